@@ -31,8 +31,8 @@ RULE = ("case = (functional, variant {closed, wrap, names, bad}, size/seed, opti
         "(custom variants) and at least one second-order gradient was compared, or (name variants) at least two spellings were executed")
 RULE += ('; group special: unknown name with an all-zero right-hand side, closed-form callable returning one of its input objects, method entry in bck_options for every functional; a wrap callable reaching another solution than the built-in is a violation')
 MIN_NONTRIVIAL = {"quick": 200, "thorough": 1200}
-REQUIRED_COUNTERS = {"quick": {"custom_calls_observed": 150, "names_compared": 100, "second_order_compared": 150},
-                     "thorough": {"custom_calls_observed": 900, "names_compared": 600, "second_order_compared": 900}}
+REQUIRED_COUNTERS = {"quick": {"bck_callable_orders_checked": 8, "nested_backward_solves_observed": 20, "unhashable_callable_checked": 15, "bck_unknown_name_rejected": 10, "returns_input_compared": 6, "custom_calls_observed": 150, "names_compared": 100, "second_order_compared": 150},
+                     "thorough": {"bck_callable_orders_checked": 60, "nested_backward_solves_observed": 150, "unhashable_callable_checked": 100, "bck_unknown_name_rejected": 80, "returns_input_compared": 40, "custom_calls_observed": 900, "names_compared": 600, "second_order_compared": 900}}
 ASSUMPTIONS = ["well-conditioned problems (cond <= 10, contraction <= 0.5, SPD ODE matrices), float64",
                "gradient tolerance 1e-6 relative (1e-5 for solve_ivp / davidson): built-ins run with tolerances 1e-10..1e-12"]
 BUDGET = {"quick": {"worker_timeout": 900, "case_timeout": 240}, "thorough": {"worker_timeout": 3300, "case_timeout": 400}}
@@ -537,7 +537,8 @@ def cases(seed, tier):
     # special inputs: unknown name on an input that takes a shortcut; a callable that returns one of its input objects; a method key in bck_options
     for r in range(3 if tier == "quick" else 20):
         for kind, names in (("unknown_zero_rhs", ["solve"]), ("returns_input", ["rootfinder", "equilibrium", "minimize", "solve"]),
-                            ("bck_method_key", list(PROBLEMS)), ("unhashable_callable", list(PROBLEMS)), ("bck_unknown_name", list(PROBLEMS))):
+                            ("bck_method_key", list(PROBLEMS)), ("unhashable_callable", list(PROBLEMS)), ("bck_unknown_name", list(PROBLEMS)),
+                            ("bck_callable_orders", ["rootfinder", "equilibrium", "minimize", "solve"])):
             for name in names:
                 out.append({"group": "special", "kind": kind, "functional": name, "n": [3, 4, 6][r % 3], "seed": sub_seed(seed, "c18sp", kind, name, r)})
     for cls in ("Interp1D", "SQuad"):
@@ -791,6 +792,62 @@ def run_special(desc, obs):
             err = max(float((a - b).abs().max()) for a, b in zip(gc, gr))
             obs.check(err <= 1e-6 * sc, "returns_input:%s:%s" % (order, name), "%s with a callable that returns its input object differs from the built-in's by %.3e" % (order, err))
         obs.count("returns_input_compared")
+        obs.nontrivial = True
+        return
+    if kind == "bck_callable_orders":
+        # a recording callable as the BACKWARD linear solver: it must do the solves of the first-order backward AND those started while that
+        # backward is differentiated again (second order) - no silent fall-back to a default solver
+        calls = []
+
+        def rec_solver(A, B, E=None, M=None, **options):
+            calls.append(tuple(B.shape))
+            Ad = A.fullmatrix()
+            if E is None:
+                return torch.linalg.solve(Ad, B)
+            Md = M.fullmatrix() if M is not None else torch.eye(Ad.shape[-1], dtype=Ad.dtype)
+            cols = [torch.linalg.solve(Ad - E[..., c] * Md, B[..., c]) for c in range(B.shape[-1])]
+            return torch.stack(cols, dim=-1)
+        P6 = PROBLEMS[name](desc["seed"], 6 if desc["n"] < 6 else desc["n"])
+        lv = P6.leaves()
+        # the solves that solve's own backward starts (second order) are observed through the name bound in xitorch.linalg.solve
+        import sys as _sys
+        import xitorch.linalg       # noqa: F401  (makes sure the module is loaded)
+        smod = _sys.modules["xitorch.linalg.solve"]
+        orig_solve = smod.solve
+        nested = []
+
+        def spy_solve(*a, **kw):
+            nested.append(kw.get("method"))
+            return orig_solve(*a, **kw)
+        smod.solve = spy_solve
+        try:
+            with WarnLog():
+                outs = P6.call(lv, "bicgstab" if name == "solve" else P6.reference, {}, {"method": rec_solver})
+                leaves = [v for v in lv.values() if isinstance(v, torch.Tensor) and v.requires_grad]
+                tg = torch.Generator().manual_seed(desc["seed"] + 1)
+                L = sum((o * torch.randn(o.shape, generator=tg, dtype=o.dtype)).sum() for o in P6.gauge(outs))
+                n0 = len(calls)
+                g = torch.autograd.grad(L, leaves, create_graph=True, allow_unused=True)
+                n1 = len(calls)
+                L2 = sum((gi * torch.randn(gi.shape, generator=tg, dtype=gi.dtype)).sum() for gi in g if gi is not None and gi.requires_grad)
+                if isinstance(L2, torch.Tensor) and L2.requires_grad:
+                    torch.autograd.grad(L2, leaves, allow_unused=True)
+                n2 = len(calls)
+        except Exception as e:
+            smod.solve = orig_solve
+            obs.exc_violation("bck_callable_orders:" + name, e)
+            obs.nontrivial = True
+            return
+        finally:
+            smod.solve = orig_solve
+        obs.count("nested_backward_solves_observed", len(nested))
+        obs.check(all(m is rec_solver for m in nested), "bck_callable_orders:nested:" + name,
+                  "solves started inside solve's own backward ran with method=%s instead of the caller's callable" % sorted({getattr(m, "__name__", str(m)) for m in nested if m is not rec_solver}))
+        obs.check(n1 > n0, "bck_callable_orders:first:" + name, "the callable given as bck_options['method'] was not called in the first-order backward")
+        obs.check(n2 > n1, "bck_callable_orders:second:" + name,
+                  "the callable given as bck_options['method'] was called %d time(s) in the first-order backward but not at all while that backward was differentiated "
+                  "again: the second-order solves ran with another solver" % (n1 - n0))
+        obs.count("bck_callable_orders_checked")
         obs.nontrivial = True
         return
     if kind == "unhashable_callable":
